@@ -1,5 +1,6 @@
 """C09 - structural measures are invariant under relabelling and insertion order (metamorphic)."""
 import math
+import random
 
 import numpy as np
 from hypothesis import strategies as st
@@ -44,9 +45,10 @@ def strategy(tier):
 
 
 def perm(keys, n):
-    """permutation of range(n) determined by the integer keys"""
-    ks = [(keys[i % len(keys)] * (i + 3) + i * 7919) % 1000003 for i in range(n)]
-    return sorted(range(n), key=lambda i: (ks[i], i))
+    """permutation of range(n) that is a pure function of the drawn integer keys"""
+    xs = list(range(n))
+    random.Random(repr((list(keys), n))).shuffle(xs)
+    return xs
 
 
 def make_pair(case):
